@@ -1,7 +1,71 @@
 import TTV.Sexp
-/-! Driver glue for C11 — stub, replaced when the property's model is built. -/
+import TTV.Model.StreamDeco
+import TTV.Spec.C11
+import TTV.Drv.StreamCodec
+/-! Driver glue for C11.
+tree  = `sink` | `failfast` | `(copy t…)` | `(tagger (add…) (discard…) t…)` | `(stamp t)` | `(queue code t)`
+input = `(tree ((frozen elems)…) (call…))`,  call = `start` | `stop` | `(status event)` (event tags = object index)
+trace = `((leafEv…)… ) ((before after)…) (elems…)`,
+leafEv = `start` | `stop` | `(fired n)` | `(status event ident endTags)`, ident = `none` | `(some (caller k))` | `(some fresh)` -/
 namespace TTV.Drv.C11
-open TTV
+open TTV TTV.Sexp TTV.Stream TTV.Stream.Deco TTV.Drv.StreamCodec
 
-def handle (_ : List Sexp) : Sexp := .atom "unimplemented"
+partial def tree? : Sexp → Option Dec
+  | .atom "sink" => some .sink
+  | .atom "failfast" => some .failfast
+  | .list (.atom "copy" :: ts) => do some (.copy (← ts.mapM tree?))
+  | .list (.atom "tagger" :: a :: d :: ts) => do some (.tagger (← list? nat? a) (← list? nat? d) (← ts.mapM tree?))
+  | .list [.atom "stamp", t] => do some (.stamp (← tree? t))
+  | .list [.atom "queue", c, t] => do some (.toQueue (← chars? c) (← tree? t))
+  | _ => none
+
+def obj? : Sexp → Option TagObj
+  | .list [f, es] => do some { frozen := ← bool? f, elems := ← list? nat? es }
+  | _ => none
+
+def call? : Sexp → Option Call
+  | .atom "start" => some .start
+  | .atom "stop" => some .stop
+  | .list [.atom "status", e] => (eventOf? nat? e).map .status
+  | _ => none
+
+def input? : Sexp → Option Input
+  | .list [t, os, cs] => do some { tree := ← tree? t, objs := ← list? obj? os, calls := ← list? call? cs }
+  | _ => none
+
+def ident? : Sexp → Option Ident
+  | .atom "fresh" => some .fresh
+  | .list [.atom "caller", k] => (nat? k).map .caller
+  | _ => none
+def ofIdent : Ident → Sexp
+  | .fresh => .atom "fresh"
+  | .caller k => tag "caller" [ofNat k]
+
+def leafEv? : Sexp → Option LeafEv
+  | .atom "start" => some .start
+  | .atom "stop" => some .stop
+  | .list [.atom "fired", n] => (nat? n).map .fired
+  | .list [.atom "status", e, i, t] => do some (.status (← event? e) (← opt? ident? i) (← opt? (list? nat?) t))
+  | _ => none
+def ofLeafEv : LeafEv → Sexp
+  | .start => .atom "start"
+  | .stop => .atom "stop"
+  | .fired n => tag "fired" [ofNat n]
+  | .status e i t => tag "status" [ofEvent e, ofOpt ofIdent i, ofOpt (ofList ofNat) t]
+
+def trace? : Sexp → Option Trace
+  | .list [a, b, c] => do
+      some { leaves := ← list? (list? leafEv?) a
+             caller := ← list? (pair? (opt? (list? nat?)) (opt? (list? nat?))) b
+             callerEnd := ← list? (list? nat?) c }
+  | _ => none
+def ofTrace (t : Trace) : Sexp :=
+  .list [ofList (ofList ofLeafEv) t.leaves,
+         ofList (ofPair (ofOpt (ofList ofNat)) (ofOpt (ofList ofNat))) t.caller,
+         ofList (ofList ofNat) t.callerEnd]
+
+def drv : PropDrv Input Trace :=
+  { decI := input?, decT := trace?, encT := ofTrace, model := model, clauses := Spec.C11.clauses }
+
+def handle : List Sexp → Sexp := drv.handle
 end TTV.Drv.C11
